@@ -49,6 +49,7 @@ Definition unesc_obs (r : option str) : obs :=
 Definition uc_obs (r : uc_result) : obs :=
   match r with
   | UcOk s => ob s
+  | UcEncodeError => OTag "UnicodeEncodeError"
   | UcOutOfModel => OTag "OutOfModel"
   end.
 Definition date_obs (t : Z) : obs :=
@@ -96,7 +97,7 @@ Definition check_case (i : input) (o : obs) : bool :=
   | InReUnescape s => if memN 92 s then true else obs_eqb o (ob s)
   | InReEscape s =>
       match o with OList [_; r] => obs_eqb r (ob s) | _ => false end        (* re_unescape inverts re.escape *)
-  | InUrlConcat u args => check_url_concat u args o
+  | InUrlConcat u args => check_url_concat (OTag "UnicodeEncodeError") u args o
   | InDate t =>
       match o with
       | OList [_; r] => negb (date_rt_min <=? t)%Z || obs_eqb r (OInt t)
